@@ -14,16 +14,15 @@ void h_build_mapping(void)
 {
   g_tb = nondet_uchar();
   g_te = nondet_uchar();
-  __CPROVER_havoc_object(&h_map);
-  bool r = build_mapping(DIALECT, &h_map);
+  struct expansion_map *m;
+  bool r = build_mapping(DIALECT, m);
   VERIF_COVER(r && SPEC_CLASS[g_tb] == CL_KW && g_tb >= 0x80, "keyword entry");
   VERIF_COVER(r && SPEC_CLASS[g_tb] == CL_INVALID, "invalid entry");
 }
 
 void h_set_dialect(void)
 {
-  const char *name;
-  enum Dialect *d;
+  enum Dialect *d; const char *name;
   bool r = set_dialect(name, d);
   VERIF_COVER(r && *d == PDP11, "PDP11 selected");
   VERIF_COVER(!r, "unknown name");
